@@ -3,11 +3,288 @@
 use crate::c04;
 use crate::rng::Rng;
 use duckscript::runner;
-use duckscript::types::runtime::Context;
+use duckscript::types::command::{Command, CommandInvocationContext, CommandResult};
+use duckscript::types::runtime::{Context, StateValue};
 use serde_json::{json, Value};
 use std::collections::BTreeMap;
 
+/// `tlog <text..>`: appends to a trace kept in the context state, so it is seen across <scope> calls
+#[derive(Clone)]
+pub struct TLog {}
+impl Command for TLog {
+    fn name(&self) -> String {
+        "tlog".to_string()
+    }
+    fn clone_and_box(&self) -> Box<dyn Command> {
+        Box::new(self.clone())
+    }
+    fn run(&self, context: CommandInvocationContext) -> CommandResult {
+        let t = match context.state.get("vtrace") {
+            Some(StateValue::String(s)) => s.clone(),
+            _ => String::new(),
+        };
+        context.state.insert("vtrace".to_string(), StateValue::String(format!("{} {}", t, context.arguments.join(","))));
+        CommandResult::Continue(None)
+    }
+}
+
+fn truthy(v: &Option<String>) -> bool {
+    match v {
+        Some(s) => {
+            let l = s.to_lowercase();
+            !(l.is_empty() || l == "0" || l == "false" || l == "no")
+        }
+        None => false,
+    }
+}
+
+/// a call in condition position (if / elseif / not / while / inside another function used as a condition)
+fn gen_cond(r: &mut Rng) -> Value {
+    let vals = ["true", "false", "abc", "0", "no", "YES"];
+    let forms = ["if", "elseif", "not", "while", "nested", "assign"];
+    let form = forms[r.below(6)];
+    json!({"kind": "cond", "scoped": r.chance(1, 3),
+        "stale": if r.chance(2, 3) { json!(vals[r.below(3)]) } else { Value::Null },
+        "log": r.chance(1, 2),
+        "end": match r.below(4) { 0 => json!("fall"), 1 => json!("bare"), _ => json!(vals[r.below(vals.len())]) },
+        "form": form})
+}
+
+/// a function that calls itself from inside a for-in loop; the innermost call may leave through `return`
+fn gen_rec(r: &mut Rng) -> Value {
+    let n = 1 + r.below(3);
+    let depth = 2 + r.below(2);
+    json!({"kind": "rec", "scoped": r.chance(2, 3), "n": n, "depth": depth,
+        "ret_item": if r.chance(3, 4) { json!(r.below(n)) } else { Value::Null },
+        "ret_value": r.chance(3, 4)})
+}
+
+fn run_logged(script: &str, expected_log: &str, expected_vars: &[(&str, Option<String>)]) -> Option<Value> {
+    let mut context = Context::new();
+    duckscriptsdk::load(&mut context.commands).ok()?;
+    context.commands.set(Box::new(TLog {})).ok()?;
+    // a misdirected jump may loop for ever: stop the run through the halt flag after a while
+    let halt = std::sync::Arc::new(std::sync::atomic::AtomicBool::new(false));
+    let h2 = halt.clone();
+    std::thread::spawn(move || {
+        std::thread::sleep(std::time::Duration::from_millis(500));
+        h2.store(true, std::sync::atomic::Ordering::SeqCst);
+    });
+    let env = duckscript::types::env::Env::new(None, None, Some(halt.clone()));
+    match runner::run_script(script, context, Some(env)) {
+        Ok(ctx) => {
+            let log = match ctx.state.get("vtrace") {
+                Some(StateValue::String(s)) => s.clone(),
+                _ => String::new(),
+            };
+            let halted = halt.load(std::sync::atomic::Ordering::SeqCst);
+            let mut bad = vec![];
+            for (k, v) in expected_vars {
+                if ctx.variables.get(*k) != v.as_ref() {
+                    bad.push(json!({"var": k, "model": v, "real": ctx.variables.get(*k)}));
+                }
+            }
+            if log != expected_log || !bad.is_empty() {
+                let shown: String = log.chars().take(400).collect();
+                Some(json!({"script": script, "what": if halted && log.len() > expected_log.len() { "the run did not end by itself (stopped through the halt flag); trace differs" } else { "trace / outputs differ from the model" },
+                    "model_log": expected_log, "real_log": shown, "vars": bad}))
+            } else {
+                None
+            }
+        }
+        Err(e) => Some(json!({"script": script, "error": e.to_string(), "model_log": expected_log})),
+    }
+}
+
+fn run_cond(input: &Value) -> Option<Value> {
+    let scoped = input["scoped"].as_bool().unwrap_or(false);
+    let form = input["form"].as_str()?;
+    let end = input["end"].as_str()?;
+    let mut l = vec![if scoped { "fn <scope> f".to_string() } else { "fn f".to_string() }];
+    if let Some(st) = input["stale"].as_str() {
+        l.push(format!("v = set {}", st));
+    }
+    let logged = input["log"].as_bool().unwrap_or(false);
+    if logged {
+        l.push("tlog f".to_string());
+    }
+    if form == "while" {
+        // first call (argument 0) has the value true, the second ends as configured
+        l.push("if equals ${1} 0".to_string());
+        l.push("return true".to_string());
+        l.push("end".to_string());
+    }
+    match end {
+        "fall" => {}
+        "bare" => l.push("return".to_string()),
+        v => l.push(format!("return {}", v)),
+    }
+    l.push("end".to_string());
+    let value: Option<String> = match end {
+        "fall" | "bare" => None,
+        v => Some(v.to_string()),
+    };
+    let t = truthy(&value);
+    let f = if logged { " f" } else { "" };
+    let mut log = String::new();
+    let mut vars: Vec<(&str, Option<String>)> = vec![];
+    match form {
+        "if" => {
+            l.extend(["if f a", "tlog yes", "else", "tlog no", "end"].iter().map(|s| s.to_string()));
+            log = format!("{} {}", f, if t { "yes" } else { "no" });
+        }
+        "elseif" => {
+            l.extend(["if false", "tlog first", "elseif f a", "tlog yes", "else", "tlog no", "end"].iter().map(|s| s.to_string()));
+            log = format!("{} {}", f, if t { "yes" } else { "no" });
+        }
+        "not" => {
+            l.extend(["r = not f a", "tlog not:${r}"].iter().map(|s| s.to_string()));
+            log = format!("{} not:{}", f, if t { "false" } else { "true" });
+            vars.push(("r", Some(if t { "false" } else { "true" }.to_string())));
+        }
+        "while" => {
+            l.extend(["n = set 0", "while f ${n}", "tlog body", "n = calc ${n} + 1", "if greater_than ${n} 3", "tlog runaway", "n = set 0", "goto :out", "end", "end", ":out tlog after"].iter().map(|s| s.to_string()));
+            // the guard stops a loop that the model says ends: calls with 0, then 1, 2, 3 while the value is true
+            let mut lg = String::new();
+            let mut n = 0;
+            loop {
+                lg.push_str(f);
+                let val = if n == 0 { true } else { t };
+                if !val {
+                    break;
+                }
+                lg.push_str(" body");
+                n += 1;
+                if n > 3 {
+                    lg.push_str(" runaway");
+                    break;
+                }
+            }
+            lg.push_str(" after");
+            log = lg;
+        }
+        "nested" => {
+            l.extend(["fn g", "if f a", "return in", "end", "end", "o = g", "tlog o:${o}", "if g", "tlog yes", "else", "tlog no", "end"].iter().map(|s| s.to_string()));
+            log = format!("{} o:{}{} {}", f, if t { "in" } else { "" }, f, if t { "yes" } else { "no" });
+            vars.push(("o", if t { Some("in".to_string()) } else { None }));
+        }
+        _ => {
+            l.extend(["o = set old", "o = f a", "tlog o:${o}"].iter().map(|s| s.to_string()));
+            let kept = scoped && value.is_none();
+            let ov = if kept { Some("old".to_string()) } else { value.clone() };
+            log = format!("{} o:{}", f, ov.clone().unwrap_or_default());
+            vars.push(("o", ov));
+        }
+    }
+    run_logged(&l.join("\n"), &log, &vars)
+}
+
+struct Rec {
+    scoped: bool,
+    items: Vec<String>,
+    depth: usize,
+    ret_item: Option<String>,
+    ret_value: bool,
+}
+
+fn model_walk(c: &Rec, vars: &mut BTreeMap<String, String>, log: &mut String, level: String, steps: &mut usize) -> Option<String> {
+    let saved = vars.clone();
+    if c.scoped {
+        vars.clear();
+    }
+    vars.insert("1".to_string(), level);
+    let g = |vars: &BTreeMap<String, String>, k: &str| vars.get(k).cloned().unwrap_or_default();
+    let mut result = None;
+    let mut returned = false;
+    let l1 = g(vars, "1");
+    vars.insert("lvl".to_string(), l1);
+    for it in &c.items {
+        *steps += 1;
+        if *steps > 400 {
+            break;
+        }
+        vars.insert("item".to_string(), it.clone());
+        log.push_str(&format!(" {}:{}", g(vars, "lvl"), it));
+        if g(vars, "lvl") == c.depth.to_string() {
+            if c.ret_item.as_ref() == Some(it) {
+                result = if c.ret_value { Some(format!("r{}", it)) } else { None };
+                returned = true;
+                break;
+            }
+        } else {
+            let nxt = g(vars, "lvl").parse::<usize>().unwrap_or(0) + 1;
+            vars.insert("nxt".to_string(), nxt.to_string());
+            match model_walk(c, vars, log, nxt.to_string(), steps) {
+                Some(v) => {
+                    vars.insert("r".to_string(), v);
+                }
+                None => {
+                    // a <scope> call without a value leaves the caller's old value of the output variable
+                    if !c.scoped {
+                        vars.remove("r");
+                    }
+                }
+            }
+            log.push_str(&format!(" {}<{}", g(vars, "lvl"), g(vars, "r")));
+        }
+    }
+    if !returned {
+        log.push_str(&format!(" {}:done", g(vars, "lvl")));
+    }
+    if c.scoped {
+        *vars = saved;
+    }
+    result
+}
+
+fn run_rec(input: &Value) -> Option<Value> {
+    let names = ["a", "b", "c"];
+    let n = input["n"].as_u64()? as usize;
+    let c = Rec {
+        scoped: input["scoped"].as_bool().unwrap_or(true),
+        items: names[..n.min(3)].iter().map(|s| s.to_string()).collect(),
+        depth: input["depth"].as_u64()? as usize,
+        ret_item: input["ret_item"].as_u64().map(|k| names[(k as usize).min(2)].to_string()),
+        ret_value: input["ret_value"].as_bool().unwrap_or(true),
+    };
+    let mut l = vec![if c.scoped { "fn <scope> walk".to_string() } else { "fn walk".to_string() }];
+    l.push("lvl = set ${1}".to_string());
+    l.push("for item in ${2}".to_string());
+    l.push("tlog ${lvl}:${item}".to_string());
+    l.push(format!("if equals ${{lvl}} {}", c.depth));
+    if let Some(ri) = &c.ret_item {
+        l.push(format!("if equals ${{item}} {}", ri));
+        l.push(if c.ret_value { "return r${item}".to_string() } else { "return".to_string() });
+        l.push("end".to_string());
+    }
+    l.push("else".to_string());
+    l.push("nxt = calc ${lvl} + 1".to_string());
+    l.push("r = walk ${nxt} ${2}".to_string());
+    l.push("tlog ${lvl}<${r}".to_string());
+    l.push("end".to_string());
+    l.push("end".to_string());
+    l.push("tlog ${lvl}:done".to_string());
+    l.push("end".to_string());
+    l.push(format!("list = array {}", c.items.join(" ")));
+    l.push("x = walk 1 ${list}".to_string());
+    l.push("tlog top:${x}".to_string());
+    let mut vars = BTreeMap::new();
+    let mut log = String::new();
+    let mut steps = 0;
+    let x = model_walk(&c, &mut vars, &mut log, "1".to_string(), &mut steps);
+    if steps > 400 {
+        return None;
+    }
+    log.push_str(&format!(" top:{}", x.clone().unwrap_or_default()));
+    run_logged(&l.join("\n"), &log, &[("x", x)])
+}
+
 pub fn gen(r: &mut Rng) -> Value {
+    match r.below(5) {
+        0 => return gen_cond(r),
+        1 => return gen_rec(r),
+        _ => {}
+    }
     let mut c = 100;
     let mut budget = 8;
     let body = c04::gen_block_ret(r, 0, &mut c, &mut budget, true);
@@ -77,6 +354,11 @@ pub fn run(input: &Value) -> Option<Value> {
 }
 
 fn run_inner(input: &Value) -> Option<Value> {
+    match input["kind"].as_str() {
+        Some("cond") => return run_cond(input),
+        Some("rec") => return run_rec(input),
+        _ => {}
+    }
     let body = input["body"].as_array()?.clone();
     let calls = input["calls"].as_array()?.clone();
     let scoped = input["scoped"].as_bool().unwrap_or(false);
